@@ -107,6 +107,8 @@ def body_step(f, step):
     elif step[0] == 'readback':
         f.seek(0)
         f.read()
+    elif step[0] == 'close':
+        f.close()                   # e.g. handed to a wrapper that closes what it wraps
     elif step[0] == 'raise':
         if len(step) > 1 and step[1] == 'base':
             raise BodyAbort('body interrupted')
@@ -285,6 +287,8 @@ def gen_body(rng, text, blksize, allow_raise=False):
     if steps and rng.random() < 0.06:
         # after the last write the body goes back to the start (and perhaps reads its data back)
         steps.append(rng.choice([['rewind'], ['readback']]))
+    if allow_raise and rng.random() < 0.04:
+        steps.append(['close'])     # the body closes the file object it was given
     if allow_raise and rng.random() < 0.25:
         steps.insert(rng.randint(0, len(steps)), rng.choice([['raise'], ['raise'], ['raise'], ['raise', 'base'], ['raise', 'falsy']]))
     return steps
